@@ -464,13 +464,6 @@ func KeysFromRequest(r *http.Request) []Key {
 	return keys
 }
 
-// ForClientOf returns k - the entry it names, and its hold on the lock - as looked up by the request that own was
-// made from: the validators the lookup is judged by (If-None-Match, If-Modified-Since) are that request's.
-func (k Key) ForClientOf(own Key) Key {
-	k.originalHeaders = own.originalHeaders
-	return k
-}
-
 func newKey(method string, host string, path string, opaqueOrigin bool, originalHeaders http.Header, allowHeaderKeys []string) Key {
 	k := Key{method: method, host: host, path: path, opaqueOrigin: opaqueOrigin, storedHeaders: util.AllowHeaders(originalHeaders, allowHeaderKeys), originalHeaders: originalHeaders}
 	return k
